@@ -1,0 +1,144 @@
+//go:build verif
+
+package jen
+
+import (
+	"fmt"
+	"io"
+	"sort"
+	"strings"
+)
+
+// This file is only compiled with the "verif" build tag. It gives an external
+// monitor read access to a File's naming state and to the structure of a Code
+// tree, and provides a transparent Code wrapper that reports when it is
+// visited and can fail on demand. Nothing here is referenced by the rest of
+// the package.
+
+// VerifFileState returns a copy of the naming state of the File. Each
+// definition is returned as {name, "alias"} or {name, "name"}.
+func VerifFileState(f *File) (name, path string, imports, hints map[string][2]string) {
+	conv := func(m map[string]importdef) map[string][2]string {
+		out := make(map[string][2]string, len(m))
+		for p, d := range m {
+			kind := "name"
+			if d.alias {
+				kind = "alias"
+			}
+			out[p] = [2]string{d.name, kind}
+		}
+		return out
+	}
+	return f.name, f.path, conv(f.imports), conv(f.hints)
+}
+
+// VerifDump returns a canonical description of the structure of a Code tree.
+func VerifDump(c Code) string {
+	var b strings.Builder
+	verifDump(&b, c)
+	return b.String()
+}
+
+func verifDump(b *strings.Builder, c Code) {
+	switch x := c.(type) {
+	case nil:
+		b.WriteString("nil")
+	case *Statement:
+		if x == nil {
+			b.WriteString("S<nil>")
+			return
+		}
+		b.WriteString("S[")
+		for i, it := range *x {
+			if i > 0 {
+				b.WriteString(" ")
+			}
+			verifDump(b, it)
+		}
+		b.WriteString("]")
+	case *Group:
+		if x == nil {
+			b.WriteString("G<nil>")
+			return
+		}
+		fmt.Fprintf(b, "G(%s %q %q %q %v)[", x.name, x.open, x.close, x.separator, x.multi)
+		for i, it := range x.items {
+			if i > 0 {
+				b.WriteString(" ")
+			}
+			verifDump(b, it)
+		}
+		b.WriteString("]")
+	case *File:
+		if x == nil {
+			b.WriteString("F<nil>")
+			return
+		}
+		b.WriteString("F")
+		verifDump(b, x.Group)
+	case token:
+		fmt.Fprintf(b, "T(%s %T %#v)", x.typ, x.content, x.content)
+	case Dict:
+		pairs := make([]string, 0, len(x))
+		for k, v := range x {
+			pairs = append(pairs, VerifDump(k)+"=>"+VerifDump(v))
+		}
+		sort.Strings(pairs)
+		b.WriteString("D{" + strings.Join(pairs, "; ") + "}")
+	case tag:
+		keys := make([]string, 0, len(x.items))
+		for k := range x.items {
+			keys = append(keys, k)
+		}
+		sort.Strings(keys)
+		b.WriteString("Tag{")
+		for _, k := range keys {
+			fmt.Fprintf(b, "%q:%q ", k, x.items[k])
+		}
+		b.WriteString("}")
+	case comment:
+		fmt.Fprintf(b, "C(%q)", x.comment)
+	case *VerifProbe:
+		fmt.Fprintf(b, "P%d<", x.ID)
+		verifDump(b, x.Inner)
+		b.WriteString(">")
+	default:
+		fmt.Fprintf(b, "?%T", c)
+	}
+}
+
+// VerifProbe wraps a Code item. It renders exactly like the wrapped item, and
+// calls the (optional) callbacks each time the package asks it whether it is
+// null or asks it to render. If OnRender returns an error, that error is
+// returned from render and the wrapped item is not rendered.
+type VerifProbe struct {
+	ID       int
+	Inner    Code
+	OnIsNull func(p *VerifProbe)
+	OnRender func(p *VerifProbe) error
+}
+
+func (p *VerifProbe) isNull(f *File) bool {
+	if p == nil {
+		return true
+	}
+	if p.OnIsNull != nil {
+		p.OnIsNull(p)
+	}
+	if p.Inner == nil {
+		return true
+	}
+	return p.Inner.isNull(f)
+}
+
+func (p *VerifProbe) render(f *File, w io.Writer, s *Statement) error {
+	if p.OnRender != nil {
+		if err := p.OnRender(p); err != nil {
+			return err
+		}
+	}
+	if p.Inner == nil {
+		return nil
+	}
+	return p.Inner.render(f, w, s)
+}
